@@ -51,6 +51,7 @@ Record field := mkF {
   f_has_default : bool;      (* dataclass: default or default_factory; TypedDict: key not required *)
   f_init : bool;
   f_ntover : option bool;    (* field option serialize="as_dict" (Some true) / "as_list" (Some false) *)
+  f_dnone : bool;            (* the field's default value is None *)
 }.
 Record cls := mkC { c_id : string; c_name : string (* bare __name__ *); c_fields : list field;
                     c_ntd : bool     (* Config / Config.dialect namedtuple_as_dict *);
@@ -113,12 +114,21 @@ Definition is_none_val (v: value) : bool :=
 (* matching of a dataclass instance with the emitted members: every field in class order, under its
    alias; with omit_none a nullable field whose value is None has no member (it must still conform) *)
 (* types the serializer treats as nullable (only for these is the `is not None` test emitted):
-   Any, None, and unions with a direct None member; Literal[None] is not *)
+   Any, None, and every union with a direct None member (Optional[X], Union[int, None, str]; since /repo 906a805);
+   Literal[None] is not *)
+Definition is_tnone (t: ty) : bool := match t with TNone => true | _ => false end.
 Definition nullable (t: ty) : bool :=
   match t with
   | TAny | TNone => true
-  | TUnion ts => existsb (fun t' => match t' with TNone | TAny => true | _ => false end) ts
+  | TUnion ts => existsb is_tnone ts
   | _ => false end.
+
+(* CodeBuilder.is_field_nullable (kernel K20; Annotated/Final wrappers are already removed in `ty`):
+   nullable type, or the default is None *)
+Definition fnullable (f: field) : bool := nullable (f_ty f) || f_dnone f.
+
+(* is the field listed in `required` (kernel K6R): no default, and not droppable under omit_none *)
+Definition frequired (omit: bool) (f: field) : bool := negb (f_has_default f) && negb (omit && fnullable f).
 
 Fixpoint obj_match (chk: field -> value -> json -> bool) (omit: field -> value -> bool)
          (fields: list field) (fs: list (string * value)) (ms: list (string * json)) : bool :=
@@ -215,7 +225,7 @@ Fixpoint enc_ok (fuel: nat) (E: env) (cur base: bool) (t: ty) (v: value) (j: jso
         match find_cls (classes E) c, v, j with
         | Some d, VObj fs, JObj ms =>
             obj_match (fun f fv x => enc_ok n E (nt_mode (c_ntd d) (f_ntover f)) (c_ntd d) (f_ty f) fv x)
-                      (fun f fv => c_omit d && nullable (f_ty f) && is_none_val fv) (c_fields d) fs ms
+                      (fun f fv => c_omit d && fnullable f && is_none_val fv) (c_fields d) fs ms
         | _, _, _ => false end
     | TTyped c =>
         match find_cls (typeds E) c, v, j with
@@ -341,7 +351,7 @@ Section Gen.
                 let fs := filter f_init (c_fields d) in
                 match omap (fun f => match schema_f (nt_mode (c_ntd d) (f_ntover f)) n (f_ty f) with Some s => Some (f_key f, s) | None => None end) fs with
                 | Some ps => Some (S (obj_kws (Some (c_name d)) ps
-                                       (map f_key (filter (fun f => negb (f_has_default f)) fs))))
+                                       (map f_key (filter (frequired (c_omit d)) fs))))
                 | None => None end
           end
       | TTyped c =>
@@ -375,7 +385,7 @@ Section Gen.
   Definition class_schema (fuel: nat) (d: cls) : option schema :=
     let fs := filter f_init (c_fields d) in
     match omap (fun f => match schema_f (nt_mode (c_ntd d) (f_ntover f)) fuel (f_ty f) with Some s => Some (f_key f, s) | None => None end) fs with
-    | Some ps => Some (S (obj_kws (Some (c_name d)) ps (map f_key (filter (fun f => negb (f_has_default f)) fs))))
+    | Some ps => Some (S (obj_kws (Some (c_name d)) ps (map f_key (filter (frequired (c_omit d)) fs))))
     | None => None end.
 
   (* Context.definitions: keyed by the bare class name; a later class overwrites an earlier one *)
@@ -390,18 +400,6 @@ End Gen.
 
 (* ------------------------------------------------------------------ *)
 (* the domain of the soundness theorem: everything except the known findings *)
-(* types at which to_dict never sees None (so omit_none never drops the key) *)
-Fixpoint never_none (fuel: nat) (t: ty) {struct fuel} : bool :=
-  match fuel with
-  | O => false
-  | Sn n =>
-    match t with
-    | TNone | TAny => false
-    | TLit vs => negb (existsb (json_eqb JNull) vs)
-    | TUnion ts => forallb (never_none n) ts
-    | _ => true end
-  end.
-
 Fixpoint ty_ok (fuel: nat) (E: env) (cur base: bool) (t: ty) {struct fuel} : bool :=
   match fuel with
   | O => false
@@ -415,8 +413,7 @@ Fixpoint ty_ok (fuel: nat) (E: env) (cur base: bool) (t: ty) {struct fuel} : boo
     | TUnion ts => forallb (ty_ok n E cur base) ts
     | TData c => match find_cls (classes E) c with
                  | Some d => forallb (fun f => f_init f                                         (* KF schema-init-false-field *)
-                                               && ty_ok n E (nt_mode (c_ntd d) (f_ntover f)) (c_ntd d) (f_ty f)
-                                               && (negb (c_omit d) || f_has_default f || never_none n (f_ty f)))  (* KF schema-omit-none-required *)
+                                               && ty_ok n E (nt_mode (c_ntd d) (f_ntover f)) (c_ntd d) (f_ty f))
                                      (c_fields d)
                  | None => false end
     | TTyped c => match find_cls (typeds E) c with
